@@ -1,4 +1,5 @@
 import DyntplV.Impl
+import DyntplV.Props.C15
 /-!
 # C02 — conditions render exactly the branch their operands select
 
@@ -26,6 +27,31 @@ theorem cond_false_no_else (reg : Registry) (f : Nat) (cd : CondSpec) (t : Node)
     writeNode reg (f+1) (.cond cd [t]) s = ⟨{ s with c := c1 }, pend⟩ := by
   rw [writeNode]
   simp [h]
+
+/-- The if-ok node (`{% if v, ok := helper(..); ok %}`) renders exactly the branch selected — and RETURNS
+    ITS RESULT: the error of the branch (a failed write, exit, break, …) is the error of the node. (The
+    repaired defect 89215a5: the node used to return nil whatever its branch returned.) -/
+theorem condOK_selects (reg : Registry) (f : Nat) (k : CondOKSpec) (t e : Node) (rest : List Node) (s : St)
+    (c1 : Ctx) (r : Bool) (pend : Option Err) (hh : k.cd.hlp ≠ [])
+    (h : evalCondOK s.c k = (c1, .branch r pend)) :
+    writeNode reg (f+1) (.condOK k (t :: e :: rest)) s = writeNode reg f (if r then t else e) { s with c := c1 } := by
+  rw [writeNode]
+  have : k.cd.hlp.isEmpty = false := by cases hk : k.cd.hlp <;> simp_all
+  simp only [this, Bool.false_eq_true, if_false, h]
+  cases r <;> simp
+
+/-- What the helper yields is assigned before the branch is chosen: inside either branch (and after the
+    block) the value variable reads what the helper returned and the flag variable reads the ok flag. -/
+theorem condOK_assigns (c : Ctx) (k : CondOKSpec) (v : Val) (okv : Bool) (hne : (k.varOK == k.varV) = false) :
+    getVar (condOKAssign c k v okv).vars k.varOK = some (.ins (.bool okv) .static) ∧
+    (∃ kind, getVar (condOKAssign c k v okv).vars k.varV = some (.ins v kind)) := by
+  unfold condOKAssign
+  constructor
+  · exact C15.get_set _ _ _
+  · refine ⟨(if k.ins == lit "static" then InsKind.static else if k.ins == lit "strings" then InsKind.strings else InsKind.obj), ?_⟩
+    simp only [Ctx.setStatic, Ctx.set]
+    rw [C15.get_set_other _ _ _ _ hne]
+    exact C15.get_set _ _ _
 
 /-- An evaluation error that stops the node (unknown helper, …) renders nothing. -/
 theorem cond_stop (reg : Registry) (f : Nat) (cd : CondSpec) (child : List Node) (s : St)
